@@ -49,6 +49,24 @@ def selection_rules(R, ro, P="C05"):
     loop = _loop_over_batches(R, ro, sel)
     lv = loop.target.id
     ret = _returned_names(sel.node)
+    # selection by max()/sorted() over (priority, batch) pairs without a key: when two priorities are equal the comparison goes on to the
+    # batch objects themselves, which have no order - TypeError out of the scheduler exactly when two batches tie for the maximum
+    for rn in [x for x in q.scope_nodes(sel.node) if isinstance(x, ast.Return) and x.value is not None]:
+        for c_ in [y for y in ast.walk(rn.value) if isinstance(y, ast.Call) and q.call_name(y) in ("max", "min", "sorted") and y.args and not any(k.arg == "key" for k in y.keywords)]:
+            src0 = c_.args[0]
+            pairs = []
+            if isinstance(src0, ast.Name):
+                for ap in [y for y in q.calls(sel.node) if q.call_name(y) == src0.id + ".append" and y.args and isinstance(y.args[0], ast.Tuple)]:
+                    pairs.append(ap.args[0])
+                for k_, v_ in common.assigned_values(sel.node, src0.id):
+                    if k_ == "expr" and isinstance(v_, (ast.ListComp, ast.GeneratorExp)) and isinstance(v_.elt, ast.Tuple):
+                        pairs.append(v_.elt)
+            elif isinstance(src0, (ast.ListComp, ast.GeneratorExp)) and isinstance(src0.elt, ast.Tuple):
+                pairs.append(src0.elt)
+            if any(any(isinstance(e, ast.Name) and e.id == lv for e in t.elts[1:]) for t in pairs):
+                R.violation(P + ".ARGMAX", sel.qualname + ":tuple-order", R.site(sel, rn),
+                            "the batch to flush is chosen with %s() over (priority, batch) tuples and no key: two pending batches with equal get_priority() are compared "
+                            "with each other (batches are not orderable) - TypeError escapes the scheduler and nothing is flushed" % q.call_name(c_))
     R.need(None not in ret and len(ret) == 1,
            "idiom: %s must return a single candidate variable (found %s)" % (sel.qualname, sorted(map(str, ret))))
     cand = ret.pop()
@@ -311,6 +329,7 @@ def run(R):
                 "self.%s is assigned in %s: a hook object created after construction replaces the one handlers subscribed to (reset() also runs when the "
                 "stack limit aborts a computation) - the before/after events of every later flush reach nobody" % (hook, ", ".join(w for w in writers if w != "__init__") or "no method at all"))
     common.hook_dispatch(R, "C05.HOOK-DISPATCH", ("batching.BatchBase", "batching.BatchItemBase"))
+    common.no_mutation_while_iterating(R, "C05.SELECT-STABLE", ("scheduler.TaskScheduler", "batching.BatchBase"))
 
     gp = ro.BatchBase.methods.get("get_priority")
     R.need(gp is not None, "anchor vanished: BatchBase.get_priority")
